@@ -170,6 +170,12 @@ def cache_nontrivial(ops):
 
 # ---- message driven -----------------------------------------------------------------------------------------
 
+def _tok(n):
+    """what a Who-Is limited to device instance n..n carries"""
+    b = n.to_bytes(2, "big")
+    return b"\x0a" + b + b"\x1a" + b
+
+
 def check_node(hist, learned_net):
     """hist: list of steps driven into a real NSAP+NSE through frames on a recording wire:
        ["iam", router, [dnets]]           I-Am-Router-To-Network from the router's MAC (local broadcast)
@@ -195,8 +201,12 @@ def check_node(hist, learned_net):
     else:
         nsap.bind(wire, 1, me)
     model = {}                 # dnet -> router name
+    mid_tokens = []            # (dnet, token) of requests sent while the history was going on
+    early = []                 # frames seen on the wire during the history
 
     def inject(src_mac, frame, bcast):
+        early.extend(wire.sent)
+        del wire.sent[:]
         pdu = L.PDU(frame, source=L.LocalStation(src_mac), destination=L.LocalBroadcast() if bcast else me)
         wire.response(pdu)
         L.VC.settle()
@@ -218,6 +228,21 @@ def check_node(hist, learned_net):
                 frame = RN.encode(dict(msg=None, vendor=None, dadr=None, sadr=(st_[2], b"\x21"), er=False, prio=0, hop=None, data=b"\x10\x08"))
                 inject(ROUTERS[st_[1]], frame, False)
                 model[st_[2]] = st_[1]
+            elif k == "sadrmsg":
+                # a network-layer message (Who-Is-Router-To-Network for some far network, passed along by a router) reveals its source network too
+                frame = RN.encode(dict(msg=0, vendor=None, dadr=None, sadr=(st_[2], b"\x21"), er=False, prio=0, hop=None, data=RN.encode_msg(0, dict(net=77))))
+                inject(ROUTERS[st_[1]], frame, True)
+                model[st_[2]] = st_[1]
+            elif k == "send":
+                # the application sends while the history is still going on (parked until a path is known, if need be)
+                from bacpypes.apdu import WhoIsRequest as _W
+                mid_tokens.append((st_[1], 1000 + len(mid_tokens)))
+                rq = _W(deviceInstanceRangeLowLimit=mid_tokens[-1][1], deviceInstanceRangeHighLimit=mid_tokens[-1][1])
+                rq.pduDestination = L.RemoteStation(st_[1], 33)
+                app.request(rq)
+                L.VC.settle()
+                early.extend(wire.sent)
+                del wire.sent[:]
             elif k == "forget_router":
                 nsap.delete_router_references(mynet, L.LocalStation(ROUTERS[st_[1]]))
                 for d in [d for d, r in model.items() if r == st_[1]]:
@@ -242,6 +267,7 @@ def check_node(hist, learned_net):
     from bacpypes.apdu import WhoIsRequest
     fails = []
     for d in (10, 20, 30, 40):
+        early.extend(wire.sent)
         del wire.sent[:]
         try:
             req = WhoIsRequest()
@@ -252,18 +278,34 @@ def check_node(hist, learned_net):
             return [("node:send:raised:%s" % type(err).__name__, "history %r: sending to network %d raised %r" % (hist, d, err))]
         hops = []
         whois = False
+        released = []
         for dest, frame in wire.sent:
             h = RN.decode(frame)
             if h["msg"] == 0:
                 whois = True
+            elif h["msg"] is None and any(_tok(tk) in bytes(h["data"]) for dd, tk in mid_tokens):
+                released.append((dest, h))       # a request parked earlier, released now that the path is known
             elif h["msg"] is None:
                 hops.append((dest, h))
         want = model.get(d)
+        if want is not None:
+            # everything the application sent to this network during the history has left by now, once, toward the current router
+            for dd, tk in mid_tokens:
+                if dd != d:
+                    continue
+                n_ = sum(1 for dest, frame in early + list(wire.sent) if RN.decode(frame)["msg"] is None and _tok(tk) in bytes(RN.decode(frame)["data"]))
+                if n_ != 1:
+                    fails.append(("node:parked-request-%s" % ("never-sent" if n_ == 0 else "sent-twice"), "history %r: the request sent to network %d during the history left the node %d times although %s is known as its router"
+                                  % (hist, d, n_, want)))
+                    break
+            for dest, h in released:
+                if dest != L.LocalStation(ROUTERS[want]):
+                    fails.append(("node:wrong-next-hop:released", "history %r: a parked request for network %d was released toward %s, the router is %s" % (hist, d, dest, want)))
         if want is None:
             if hops:
                 name = next((n for n, m in ROUTERS.items() if hops[0][0] == L.LocalStation(m)), str(hops[0][0]))
                 fails.append(("node:stale-hop", "history %r: nothing is known about network %d but the frame went to %s" % (hist, d, name)))
-            elif not whois:
+            elif not whois and d not in [st_[1] for st_ in steps if st_[0] == "send"]:
                 fails.append(("node:no-discovery", "history %r: network %d unknown, yet no Who-Is-Router-To-Network went out" % (hist, d)))
         else:
             if len(hops) != 1:
@@ -302,6 +344,8 @@ def check_node2(hist):
     nsap.bind(wires[0], 1, me[0])
     nsap.bind(wires[1], 2, me[1])
     model = {}                 # (attached net, dnet) -> router name
+    mid_tokens = []
+    early = []
 
     def inject(port, src_mac, frame, bcast):
         pdu = L.PDU(frame, source=L.LocalStation(src_mac), destination=L.LocalBroadcast() if bcast else me[port])
@@ -321,6 +365,17 @@ def check_node2(hist):
                 frame = RN.encode(dict(msg=None, vendor=None, dadr=None, sadr=(st_[3], b"\x21"), er=False, prio=0, hop=None, data=b"\x10\x08"))
                 inject(port, ROUTERS[st_[2]], frame, False)
                 model[(nets[port], st_[3])] = st_[2]
+            elif k == "sadrmsg":
+                frame = RN.encode(dict(msg=0, vendor=None, dadr=None, sadr=(st_[3], b"\x21"), er=False, prio=0, hop=None, data=RN.encode_msg(0, dict(net=77))))
+                inject(port, ROUTERS[st_[2]], frame, True)
+                model[(nets[port], st_[3])] = st_[2]
+            elif k == "send":
+                from bacpypes.apdu import WhoIsRequest as _W
+                mid_tokens.append((st_[2], 1000 + len(mid_tokens)))
+                rq = _W(deviceInstanceRangeLowLimit=mid_tokens[-1][1], deviceInstanceRangeHighLimit=mid_tokens[-1][1])
+                rq.pduDestination = L.RemoteStation(st_[2], 33)
+                app.request(rq)
+                L.VC.settle()
             elif k == "forget_router":
                 nsap.delete_router_references(nets[port], L.LocalStation(ROUTERS[st_[2]]))
                 for key in [key for key, r in model.items() if key[0] == nets[port] and r == st_[2]]:
@@ -335,7 +390,8 @@ def check_node2(hist):
         sw = [r for r in L.VC.boot.swallowed.take() if r[0]]
         if sw:
             return [("node2:%s:swallowed:%s:%s" % (k, sw[0][0], sw[0][1]), "history %r: step %r made the stack raise %r" % (hist, st_, sw[0]))]
-        for w in wires:
+        for pi_, w in enumerate(wires):
+            early.extend((nets[pi_], dest, frame) for dest, frame in w.sent)
             del w.sent[:]       # (a router relays announcements; not the subject here)
     # lookups agree with the model, pair by pair
     fails = []
@@ -351,7 +407,8 @@ def check_node2(hist):
                          "history %r: (attached network %d, destination %d) should lead to %r, the cache says %r" % (hist, an, d, want, got))]
     from bacpypes.apdu import WhoIsRequest
     for d in (10, 20, 30):
-        for w in wires:
+        for pi_, w in enumerate(wires):
+            early.extend((nets[pi_], dest, frame) for dest, frame in w.sent)
             del w.sent[:]
         try:
             req = WhoIsRequest()
@@ -361,12 +418,23 @@ def check_node2(hist):
         except Exception as err:
             return [("node2:send:raised:%s" % type(err).__name__, "history %r: sending to network %d raised %r" % (hist, d, err))]
         hops = []
+        now_sent = []
         for pi, w in enumerate(wires):
             for dest, frame in w.sent:
                 h = RN.decode(frame)
-                if h["msg"] is None:
+                now_sent.append((nets[pi], dest, frame))
+                if h["msg"] is None and not any(_tok(tk) in bytes(h["data"]) for dd, tk in mid_tokens):
                     hops.append((nets[pi], dest))
         ok = [(an, L.LocalStation(ROUTERS[r])) for (an, dd), r in model.items() if dd == d]
+        if ok:
+            for dd, tk in mid_tokens:
+                if dd != d:
+                    continue
+                where = [(an, dest) for an, dest, frame in early + now_sent if RN.decode(frame)["msg"] is None and _tok(tk) in bytes(RN.decode(frame)["data"])]
+                if len(where) != 1:
+                    fails.append(("node2:parked-request-%s" % ("never-sent" if not where else "sent-twice"), "history %r: the request sent to network %d during the history left the node %d times although a path is known (%r)"
+                                  % (hist, d, len(where), ok)))
+                    break
         if not ok:
             if hops:
                 fails.append(("node2:stale-hop", "history %r: nothing is known about network %d but a frame left on network %d for %s" % (hist, d, hops[0][0], hops[0][1])))
@@ -468,9 +536,12 @@ def node_alphabet():
         a.append(["forget_router", r])
         for d in (10, 20):
             a.append(["sadr", r, d])
+        a.append(["sadrmsg", r, 10])
     for r in ("A", "B", None):
         for ds in ([10], [20], [10, 30]):
             a.append(["forget_dnets", r, ds])
+    a.append(["send", 10])
+    a.append(["send", 20])
     return a
 
 
@@ -483,9 +554,12 @@ def node2_alphabet():
             a.append(["forget_router", port, r])
             for d in (10, 20):
                 a.append(["sadr", port, r, d])
+            a.append(["sadrmsg", port, r, 10])
         for r in ("A", None):
             for ds in ([10], [10, 20]):
                 a.append(["forget_dnets", port, r, ds])
+    a.append(["send", 0, 10])
+    a.append(["send", 0, 20])
     return a
 
 
@@ -506,7 +580,7 @@ def plan(tier, seed):
         specs.append(dict(name="node-random-%d" % i, kind="noderandom", n=800 if tier == "quick" else 20000))
     n2 = node2_alphabet()
     for s in range(6):
-        specs.append(dict(name="node2-all-%d" % s, kind="node2all", first=list(range(s, len(n2), 6)), maxlen=2 if tier == "quick" else 3))
+        specs.append(dict(name="node2-all-%d" % s, kind="node2all", first=list(range(s, len(n2), 6)), maxlen=3 if tier == "quick" else 4))
     for i in range(2):
         specs.append(dict(name="node2-random-%d" % i, kind="node2random", n=1000 if tier == "quick" else 20000))
     return specs
